@@ -5,7 +5,7 @@
     threads and ANY queues.  Tie to the code: real OS threads through the cfg(callbag_verif)
     hooks under the token-passing scheduler, compared event by event with this model. *)
 From CB Require Import Threads ThreadSpec ThreadsFine ThreadsTakeMerge ThreadsTakeCombine Inv_threads_take
-  Inv_threads_takemerge Inv_threads_take_fine Inv_threads_takecombine.
+  Inv_threads_takemerge Inv_threads_take_fine Inv_threads_takecombine Inv_threads_total.
 
 Theorem C19_safe max qs s :
   tk_reach max qs s ->
@@ -152,3 +152,40 @@ Theorem C19_takecombine_driver_run max n qs fins nth sch fuel : 1 <= n -> 1 <= m
   ((forall t, t < n -> xc_finished s t = true) -> takecombine_check max n qs (rev (xcs_tr s)) = []).
 Proof. exact (@takecombine_driver_final max n qs fins nth sch fuel). Qed.
 Print Assumptions C19_takecombine_driver_run.
+
+(** ** every run of the driver finishes every thread (no deadlock, no livelock), any schedule *)
+
+Theorem C19_run_total max qs nth sch fuel : fuel >= take_fuel qs nth ->
+  let s := run_full (tk_step true max) tk_finished nth sch fuel (tk_init qs) in
+  forall t, t < nth -> tk_finished s t = true.
+Proof. exact (@take_run_full_total max qs nth sch fuel). Qed.
+Print Assumptions C19_run_total.
+
+Theorem C19_fine_run_total max qs nth sch fuel : fuel >= take_fuel qs nth ->
+  let s := run_full (tkf_step max) tk_finished nth sch fuel (tk_init qs) in
+  forall t, t < nth -> tk_finished s t = true.
+Proof. exact (@take_fine_run_full_total max qs nth sch fuel). Qed.
+Print Assumptions C19_fine_run_total.
+
+Theorem C19_takemerge_run_total max n qs fins nth sch fuel : fuel >= takemerge_fuel n qs nth ->
+  let s := run_full (xm_step true max n) xm_finished nth sch fuel (xm_init n qs fins) in
+  forall t, t < nth -> xm_finished s t = true.
+Proof. exact (@takemerge_run_full_total max n qs fins nth sch fuel). Qed.
+Print Assumptions C19_takemerge_run_total.
+
+Theorem C19_takecombine_run_total max n qs fins nth sch fuel : fuel >= takecombine_fuel n qs nth ->
+  let s := run_full (xc_step true max n) xc_finished nth sch fuel (xc_init n qs fins) in
+  forall t, t < nth -> xc_finished s t = true.
+Proof. exact (@takecombine_run_full_total max n qs fins nth sch fuel). Qed.
+Print Assumptions C19_takecombine_run_total.
+
+(** the two halves together, take behind merge!: whatever the schedule and however many members fail, with
+    enough fuel the run ends and passes the whole check *)
+Theorem C19_takemerge_always_passes max n qs fins sch fuel :
+  1 <= max -> fuel >= takemerge_fuel n qs n ->
+  takemerge_check max (rev (xms_tr (run_full (xm_step true max n) xm_finished n sch fuel (xm_init n qs fins)))) = [].
+Proof.
+  intros Hm Hf. apply (@takemerge_driver_final max n qs fins n sch fuel Hm).
+  exact (@takemerge_run_full_total max n qs fins n sch fuel Hf).
+Qed.
+Print Assumptions C19_takemerge_always_passes.
